@@ -273,6 +273,38 @@ def _build(d):
                                    'f': '=SUM(%s)+1' % nm['name'],
                                    'want': ['N', float(s) + 1],
                                    'feats': ['name', 'name-range']})
+            elif k == 8 or len(sheets) == 1:
+                # several references in ONE formula: a (possibly foreign,
+                # qualified) reference followed by unqualified ones, which
+                # still mean the formula's own sheet
+                parts, total, feats = [], 0.0, ['mixed']
+                for j in range(d.int(2, 3)):
+                    t2 = d.choice(sheets) if j == 0 or d.pick(3) == 0 else sh
+                    own = t2 is sh
+                    qual2 = (not own) or d.pick(4) == 0
+                    pre = (q(t2['name']) + '!') if qual2 else ''
+                    if d.pick(2):
+                        rect = _rect(d, t2['cells'], t2['cg'], t2['rg'])
+                        r1, c1, r2, c2 = rect
+                        if (r2 - r1 + 1) * (c2 - c1 + 1) > 300:
+                            rect = (1, 1, 6, 5)
+                            r1, c1, r2, c2 = rect
+                        s_, n_, na_ = _fold(t2['cells'], rect)
+                        parts.append('SUM(%s%s%d:%s%d)' % (
+                            pre, col(c1), r1, col(c2), r2))
+                        total += s_
+                        feats.append('range-other' if not own else
+                                     'range-own')
+                    else:
+                        nums = sorted(a for a, v in t2['cells'].items()
+                                      if not isinstance(v, str))
+                        a = d.choice(nums)
+                        parts.append(pre + a)
+                        total += t2['cells'][a]
+                        feats.append('cell-other' if not own else 'cell-own')
+                probes.append({'sheet': sh['name'],
+                               'f': '=' + '+'.join(parts),
+                               'want': ['N', float(total)], 'feats': feats})
             elif len(sheets) > 1:
                 # chain: here -> other!helper (unqualified inside) -> back
                 osh = d.choice([s_ for s_ in sheets if s_ is not sh])
@@ -441,11 +473,11 @@ def _wb(case, res):
         obs = lib.evaluate(model, a, ev)
         feats = p['feats']
         if set(feats) & {'dollar', 'other-sheet', 'quoted-sheet', 'name',
-                         'chain', 'gap>=100', 'has-blanks', '>256-cells',
+                         'chain', 'mixed', 'gap>=100', 'has-blanks', '>256-cells',
                          'qualified'}:
             nt = True
         if not close(obs, want, rel=1e-12):
-            key = [f for f in ('name-range', 'name-cell', 'chain',
+            key = [f for f in ('name-range', 'name-cell', 'chain', 'mixed',
                                '>256-cells', 'gap>=100', 'dollar',
                                'unqualified-on-nondefault-sheet',
                                'quoted-sheet', 'other-sheet', 'empty-cell')
